@@ -215,6 +215,66 @@ Definition max_orb_s (S : fsent) : nat := fold_right (fun e a => Nat.max (max_or
 Definition anticomm (A B : psent) : psent := sprune (sadd (smul A B) (smul B A)).
 Definition delta_ident (n : nat) (b : bool) : psent := if b then ident n else [].
 
+(* ------------------------------------------------------------------ semantic view used by the theorems *)
+(* unreduced complex arithmetic and the coefficient function of a sentence (sum over equal keys) *)
+Definition cplus (a b : C) : C := (fst a + fst b, snd a + snd b)%Q.
+Definition cmulx (a b : C) : C := (fst a * fst b - snd a * snd b, fst a * snd b + snd a * fst b)%Q.
+Definition ceq (a b : C) : Prop := (fst a == fst b)%Q /\ (snd a == snd b)%Q.
+Fixpoint coef (A : psent) (w : pword) : C :=
+  match A with
+  | [] => c0
+  | e :: r => cplus (if weqb (fst e) w then snd e else c0) (coef r w)
+  end.
+Definition sequiv (A B : psent) : Prop := forall w, ceq (coef A w) (coef B w).
+
+(* decision procedure for sequiv (difference prunes to nothing) and finite enumerations for the bounded clauses *)
+Definition sent_eqb (A B : psent) : bool :=
+  match sprune (saccum (sscale (cneg c1) B) (saccum A [])) with [] => true | _ => false end.
+
+Definition all_ops (n : nat) : list ladder := flat_map (fun p => [(p, false); (p, true)]) (seq 0 n).
+Fixpoint all_words (ops : list ladder) (L : nat) : list fword :=
+  match L with
+  | O => [[]]
+  | S k => [] :: flat_map (fun l => map (cons l) (all_words ops k)) ops
+  end.
+
+Definition car_pair_ok (m : mapping) (n : nat) (l1 l2 : ladder) : bool :=
+  match op_image m n l1, op_image m n l2 with
+  | Some A, Some B => sent_eqb (anticomm A B) (delta_ident n (Nat.eqb (fst l1) (fst l2) && xorb (snd l1) (snd l2)))
+  | _, _ => false
+  end.
+Definition car_ok (m : mapping) (n : nat) : bool :=
+  forallb (fun l1 => forallb (car_pair_ok m n l1) (all_ops n)) (all_ops n).
+
+Definition adj_word_ok (m : mapping) (n : nat) (w : fword) : bool :=
+  match fw_image m n (fadj w), fw_image m n w with
+  | Some A, Some B => sent_eqb A (sadj B)
+  | _, _ => false
+  end.
+Definition adj_ok (m : mapping) (n L : nat) : bool := forallb (adj_word_ok m n) (all_words (all_ops n) L).
+
+Definition hom_pair_ok (m : mapping) (n : nat) (u v : fword) : bool :=
+  match fw_image m n (fmul u v), fw_image m n u, fw_image m n v with
+  | Some X, Some A, Some B => sent_eqb X (smul A B)
+  | _, _, _ => false
+  end.
+Definition hom_ok (m : mapping) (n L : nat) : bool :=
+  forallb (fun u => forallb (hom_pair_ok m n u) (all_words (all_ops n) L)) (all_words (all_ops n) L).
+
+(* CNOT(c,t) = (1 + Z_c + X_t - Z_c X_t)/2 is itself a Pauli sentence; conjugation U A U^dagger stays in the algebra *)
+Definition cnot (n c t : nat) : psent :=
+  let b := repeat PI n in
+  [(b, half); (wset c PZ b, half); (wset t PX b, half); (wset t PX (wset c PZ b), cneg half)].
+Definition conj_by (U A : psent) : psent := sprune (smul (smul U A) (sadj U)).
+(* the ladder of CNOT(j, j+1), j = 0 .. n-2, applied in this order: occupation basis -> parity basis *)
+Definition to_parity (n : nat) (A : psent) : psent :=
+  fold_left (fun acc j => conj_by (cnot n j (S j)) acc) (seq 0 (n - 1)) A.
+Definition jw_pt_equiv_ok (n : nat) : bool :=
+  forallb (fun l => match pt_op n l with
+                    | Some B => sent_eqb (to_parity n (jw_op n l)) B
+                    | None => false end) (all_ops n)
+  && forallb (fun j => sent_eqb (smul (cnot n j (S j)) (sadj (cnot n j (S j)))) (ident n)) (seq 0 (n - 1)).
+
 (* ------------------------------------------------------------------ correspondence *)
 Inductive finput := FW (w : fword) | FS (s : fsent).
 
